@@ -131,3 +131,34 @@ pub fn ty() -> Spec {
         decls,
     }
 }
+
+/// Interface for the no-alloc / no_std checks (C13): every parameter type, every response type that
+/// does not allocate by definition, sync and async handlers.
+pub fn na() -> Spec {
+    use RetTy as R;
+    use Ty::*;
+    Spec {
+        name: "na".into(),
+        standard: true,
+        errors: true,
+        decls: vec![
+            d("*RST", &[], R::None, false),
+            d("*IDN?", &[], R::Str, false),
+            d("A", &[I32], R::None, false),
+            d("A?", &[], R::Int(I32), false),
+            d("SYSTem:A", &[U8, I8, U16, I16, U32], R::None, true),
+            d("SYSTem:B", &[I64, U64, Usize, Isize], R::None, false),
+            d("SYSTem:A?", &[Str], R::Tup(vec![R::Int(U8), R::Str, R::Bool]), false),
+            d("SYSTem:SUB:F", &[F32, F64, Bool], R::None, false),
+            d("SYSTem:SUB:F?", &[], R::Tup(vec![R::F32, R::F64]), true),
+            d("SYSTem:SUB:[OPT]:S", &[Str, Bytes], R::None, false),
+            d("SYSTem:SUB:[OPT]:S?", &[Bytes], R::Arb, false),
+            d("MEASure:ALL?", &[], R::HVec(Box::new(R::Tup(vec![R::Int(I16), R::Chars]))), false),
+            d("MEASure:LIST?", &[], R::Slice(Box::new(R::F64)), false),
+            d("MEASure:INTs?", &[], R::Slice(Box::new(R::Int(I32))), true),
+            d("MEASure:NAMe?", &[], R::HStr, false),
+            d("MEASure:ERRor?", &[], R::Err, false),
+            d("PAY:B10", &[Bytes, Bytes, Bytes, Bytes, Bytes, Bytes, Bytes, Bytes, Bytes, Bytes], R::None, false),
+        ],
+    }
+}
